@@ -599,6 +599,8 @@ def failclosed_oracle(n_quick=120, n_thorough=2500):
         # text left over behind a well-formed operand, made of characters that belong to no token of the expression language
         forms += [('unrecognised text after an operand', ['other_text', t]) for t in (
             'ldi a, 5!', 'ldi a, 5 @', 'ldi a, 7 ~', 'jmp $0100?', 'ldi a, (1+2)*2`', 'lda 3 \\', 'ldi a, 5 !', 'jmp 5#')]
+        # a condition the directive patterns cannot read as a whole (it used to be read from its front part, opening a block)
+        forms += [('malformed condition', ['other_text', t]) for t in ('#if 1==1', '#if 2 == 2 junk(', '#if 1 !=0')]
         forms += [('value does not fit', st) for st in (['instr', 'ldi', ['a', num(256)]], ['instr', 'ldi', ['a', num(-129)]],
                                                         ['instr', 'jmp', [num(65536)]], ['instr', 'lda', [num(0x1000)]])]
         # (data directives reduce their values modulo 2^width by C11: '.byte 256' is not a value its field cannot hold)
